@@ -401,6 +401,9 @@ func checkGenericErrorDiscipline(c *Ctx, pkgs ...string) {
 	checkShadowedCaptures(c, "plumbing.shadowed-capture", pkgs...)
 	checkOptionsAppliedToFresh(c, "plumbing.options-applied-to-fresh", pkgs...)
 	checkCancelAfterJoin(c, "conc.cancel-after-join", pkgs...)
+	checkTokenFeedbackNotRetried(c, "plumbing.token-feedback-not-retried", pkgs...)
+	checkWaitGroupAddBeforeGo(c, "conc.wg-add-before-go", pkgs...)
+	checkResultRoles(c, "plumbing.result-roles", pkgs...)
 	if n1 == 0 || n2 == 0 {
 		c.fail("errors-surface.error-branch-fails", "instances", "-", "the generic error rules matched no site in "+joinStrings(pkgs))
 	}
